@@ -121,5 +121,30 @@ def WellNamedList : List (Bytes × Node) → Prop
   | (n, c) :: t => n ≠ [] ∧ Listing.sep ∉ n ∧ WellNamed c ∧ WellNamedList t
 end
 
+mutual
+/-- every dictionary of a file tree has its keys strictly ascending in byte order (so no key
+    occurs twice) — the shape a canonical bencoding needs -/
+def KeysAscending : Impl.FTree → Prop
+  | .leaf _ => True
+  | .node es => KeysAscendingList es ∧
+      es.Pairwise (fun a b => Listing.leBytes a.1 b.1 = true ∧ a.1 ≠ b.1)
+def KeysAscendingList : List (Bytes × Impl.FTree) → Prop
+  | [] => True
+  | (_, c) :: t => KeysAscending c ∧ KeysAscendingList t
+end
+
 end Spec
+
+namespace Listing
+
+/-- a small concrete tree used by the `example`s: stored (enumeration) order is not sorted,
+    one directory is nested, and `a.b` sorts before `a/…` as a full path string but after the
+    directory `a` as a name:  `b`, `a/{y, x}`, `a.b`, `c/` (empty directory) -/
+def exTree : Node :=
+  .dir [([98], .file [1]),
+        ([97], .dir [([121], .file [2, 3]), ([120], .file [])]),
+        ([97, 46, 98], .file [4]),
+        ([99], .dir [])]
+
+end Listing
 end TorrentVerif
